@@ -251,6 +251,52 @@ pub fn exposure(root: &Relation, gates: &[Relation], protected: &[&str]) -> &'st
     }
 }
 
+/// Exposure of the relation an entry point returned, measured on the relation alone: going down from the root, a node
+/// that itself draws noise (a Map whose projection or filter calls the random function) hides what is below it.  (The
+/// sampling steps deep inside a DP pipeline also draw random numbers: a path that would cross only those is taken as
+/// hidden too -- the measure can miss an exposure, it cannot invent one.)
+pub fn result_exposure(root: &Relation, protected: &[&str]) -> &'static str {
+    fn noise_here(r: &Relation) -> bool {
+        has_noise(r) && (r.inputs().is_empty() || {
+            // the node itself: compare with a copy of the test restricted to this node
+            match r {
+                Relation::Map(_) => {
+                    let below = r.inputs().iter().any(|i| has_noise(i));
+                    // `has_noise` is true here or below; it is here when the node's own expressions call random()
+                    !below || map_calls_random(r)
+                }
+                _ => false,
+            }
+        })
+    }
+    fn collect(r: &Relation, out: &mut Vec<Relation>) {
+        if noise_here(r) {
+            out.push(r.clone());
+            return;
+        }
+        for i in r.inputs() {
+            collect(i, out);
+        }
+    }
+    let mut gates = vec![];
+    collect(root, &mut gates);
+    exposure(root, &gates, protected)
+}
+
+fn map_calls_random(r: &Relation) -> bool {
+    fn expr_random(e: &Expr) -> bool {
+        match e {
+            Expr::Function(f) => matches!(f.function(), qrlew::expr::function::Function::Random(_)) || f.arguments().iter().any(expr_random),
+            Expr::Aggregate(a) => expr_random(a.argument()),
+            _ => false,
+        }
+    }
+    match r {
+        Relation::Map(m) => m.projection().iter().any(expr_random) || m.filter().as_ref().map(expr_random).unwrap_or(false),
+        _ => false,
+    }
+}
+
 /// Rendering with every generated name replaced by its rank of first appearance
 pub fn normalised_sql(r: &Relation) -> String {
     let sql = crate::sqlx::render(r);
@@ -404,6 +450,7 @@ fn run_case(case: &J) -> J {
             obs["sql"] = json!(normalised_sql(rw.relation()));
             obs["event"] = json!(format!("{}", rw.dp_event()));
             obs["root_has_pu"] = json!(rw.relation().schema().iter().any(|f| f.name() == "_PRIVACY_UNIT_"));
+            obs["result_exposure"] = json!(guarded(|| result_exposure(rw.relation(), &["protected"])).unwrap_or("Raw"));
         }
         Ok(Err(e)) => {
             let msg = format!("{e}");
